@@ -38,17 +38,23 @@ class LoadError(Exception):
 
 def load(text):
     """Load YAML text with the library's strict loader (what users get)."""
+    global _YAML
     data, ok = Parsers.get_yaml_data(yaml_editor(), LOG, text, literal=True)
     if not ok:
+        # a ruamel YAML instance that failed mid-document keeps parser state
+        # that poisons later loads: never reuse it
+        _YAML = None
         raise LoadError(text)
     return data
 
 
 def load_all(text):
     out = []
+    global _YAML
     for data, ok in Parsers.get_yaml_multidoc_data(
             yaml_editor(), LOG, text, literal=True):
         if not ok:
+            _YAML = None
             raise LoadError(text)
         out.append(data)
     return out
@@ -77,7 +83,7 @@ def render(spec):
                 if isinstance(key, tuple) and key[0] == "<<":
                     parts.append("<<: *%s" % key[1])
                 elif isinstance(key, tuple):
-                    parts.append("%s: %s" % (render(key), render(val)))
+                    parts.append("%s : %s" % (render(key), render(val)))
                 else:
                     parts.append("%s: %s" % (rscalar(key), render(val)))
             return "{" + ", ".join(parts) + "}"
@@ -235,7 +241,8 @@ def is_scalar(x):
 def scalar_kind(x):
     if x is None:
         return "null"
-    if isinstance(x, bool):
+    if isinstance(x, bool) or type(x).__name__ == "ScalarBoolean":
+        # ruamel's ScalarBoolean is an int subclass that dumps as true/false
         return "bool"
     if isinstance(x, int):
         return "int"
@@ -368,3 +375,86 @@ def shape(spec):
             return "&" + shape(spec[2])
         return spec[0]
     return "n" if spec is None else type(spec).__name__[0]
+
+
+# -------------------------------------------------------- anchors decoration
+def _scalar_slots(spec, path=()):
+    """Paths (in the spec tree) of scalar values, and of map keys."""
+    vals, keys = [], []
+    if isinstance(spec, tuple) and spec[0] == "m":
+        for i, (k, v) in enumerate(spec[1]):
+            keys.append(path + (("k", i),))
+            sv, sk = _scalar_slots(v, path + (("v", i),))
+            vals += sv
+            keys += sk
+    elif isinstance(spec, tuple) and spec[0] == "l":
+        for i, v in enumerate(spec[1]):
+            sv, sk = _scalar_slots(v, path + (("e", i),))
+            vals += sv
+            keys += sk
+    elif not isinstance(spec, tuple):
+        vals.append(path)
+    return vals, keys
+
+
+def _put(spec, path, new):
+    if not path:
+        return new(spec) if callable(new) else new
+    (kind, i), rest = path[0], path[1:]
+    if kind == "e":
+        items = list(spec[1])
+        items[i] = _put(items[i], rest, new)
+        return ("l", tuple(items))
+    items = list(spec[1])
+    k, v = items[i]
+    if kind == "k":
+        items[i] = (_put(k, rest, new), v)
+    else:
+        items[i] = (k, _put(v, rest, new))
+    return ("m", tuple(items))
+
+
+def decorations(spec, name="A", max_alias=2, key_alias=True):
+    """All ways to anchor one scalar value and alias it from 1..max_alias
+    later scalar-value slots and/or one later key slot (document order)."""
+    vals, keys = _scalar_slots(spec)
+    order = {}
+    n = 0
+
+    def number(s, path=()):
+        nonlocal n
+        if isinstance(s, tuple) and s[0] == "m":
+            for i, (k, v) in enumerate(s[1]):
+                order[path + (("k", i),)] = n
+                n += 1
+                number(v, path + (("v", i),))
+        elif isinstance(s, tuple) and s[0] == "l":
+            for i, v in enumerate(s[1]):
+                number(v, path + (("e", i),))
+        else:
+            order[path] = n
+            n += 1
+    number(spec)
+    out = []
+    for ai, apath in enumerate(vals):
+        later_vals = [p for p in vals if order[p] > order[apath]]
+        later_keys = [p for p in keys if order[p] > order[apath]] \
+            if key_alias else []
+        combos = []
+        for k in range(1, max_alias + 1):
+            combos += [list(c) for c in itertools.combinations(later_vals, k)]
+        for kp in later_keys:
+            combos.append([kp])
+            for vp in later_vals[:2]:
+                combos.append([kp, vp])
+        for combo in combos:
+            s2 = _put(spec, apath, lambda v: ("&", name, v))
+            ok = True
+            for p in combo:
+                if p[-1][0] == "k":
+                    # two alias keys in one map would be duplicate keys
+                    pass
+                s2 = _put(s2, p, ("*", name))
+            if ok:
+                out.append(s2)
+    return out
